@@ -54,19 +54,27 @@ def normKeywords (t : TriggerD) : List Blob :=
     | none => []
     | some k => if isNull k then [] else [k]
 
+/-- empty `match_type` dropped; a keyword trigger without one has RapidPro's default `"F"` -/
+def normMatchType (ty : Str) (m : Option Blob) : Option Blob :=
+  match dropFalsy m with
+  | some x => some x
+  | none => if ty = strK then some jMatchF else none
+
+/-- absent `exclude_groups` ≡ `[]` -/
+def normExcl (ex : Option (List GroupD)) : Option (List GroupD) :=
+  match ex with
+  | none => none
+  | some [] => none
+  | some gs => some (gs.map normGroup)
+
 def normTrigger (t : TriggerD) : TriggerD :=
   let ks := normKeywords t
   { t with
     keywords := some ks,
     keyword := some (match ks with | [] => jNull | k :: _ => k),
-    matchType := match dropFalsy t.matchType with
-      | some m => some m
-      | none => if t.type = strK then some jMatchF else none,
+    matchType := normMatchType t.type t.matchType,
     groups := t.groups.map normGroup,
-    excludeGroups := match t.excludeGroups with
-      | none => none
-      | some [] => none
-      | some gs => some (gs.map normGroup) }
+    excludeGroups := normExcl t.excludeGroups }
 
 def normDoc (d : DocD) : DocD :=
   { d with campaigns := d.campaigns.map normCampaign, flows := d.flows.map normFlow,
